@@ -89,6 +89,8 @@ pub struct Mon {
     pub tx_committed: u64,
     pub tx_rejected: u64,
     pub rejects: HashMap<(Kind, u32), u64>,
+    // C10/C12: health at bracket start (maintenance, equity) per account
+    pub bracket: HashMap<Pubkey, (refm::RefHealth, refm::RefHealth)>,
 }
 
 /// Program error codes (Anchor custom codes) the monitors need to recognise.
@@ -149,18 +151,28 @@ impl Mon {
         if self.en("C17") {
             self.c17(w, v, &info);
         }
+        if self.on.iter().any(|p| matches!(*p, "C04" | "C05" | "C07" | "C09" | "C10" | "C11" | "C12")) {
+            self.risk_on_ix(w, v, &info);
+        }
     }
 
     pub fn on_tx_commit(&mut self, w: &World, ixs: &[solana_sdk::instruction::Instruction], out: &crate::chain::TxOut) {
         self.tx_committed += 1;
-        let _ = (ixs, out);
         self.on_commit(w);
+        if self.on.iter().any(|p| matches!(*p, "C10" | "C11" | "C12")) {
+            self.brackets_on_commit(w, ixs, out);
+        }
     }
 
     /// A transaction (or simulation) that was rejected: accept/reject monitors look at it.
     pub fn on_reject(&mut self, w: &World, ixs: &[solana_sdk::instruction::Instruction], out: &crate::chain::TxOut) {
         self.tx_rejected += 1;
-        let _ = w;
+        self.bracket.clear();
+        if let (Some(c), Some(ev)) = (out.custom_code(), out.events.iter().rev().find(|e| e.program == MFI && !e.ok())) {
+            if self.on.iter().any(|p| matches!(*p, "C04" | "C11")) {
+                self.c04_reject(w, ev, c);
+            }
+        }
         let code = out.custom_code();
         let idx = out.failing_ix().map(|i| i as usize);
         let failing = idx.and_then(|i| if i >= crate::chain::Chain::IX_SHIFT { ixs.get(i - crate::chain::Chain::IX_SHIFT) } else { None });
